@@ -1,6 +1,7 @@
 package main
 
 import (
+	"fmt"
 	"bytes"
 	"encoding/hex"
 	"net/url"
@@ -132,24 +133,38 @@ func init() {
 
 	register(&Unit{Name: "c17.args_roundtrip", Props: []string{"C17"},
 		Check: func(t *T, in In) []Finding {
-			// in: alternating key, value fields
-			var a protocol.Args
-			var exp []string
-			for i := 0; i+1 < len(in); i += 2 {
-				k, v := in.B(i), in.B(i+1)
-				a.Add(string(k), string(v))
-				if len(k) > 0 || len(v) > 0 {
-					exp = append(exp, string(k)+"\x00"+string(v))
-				}
-			}
-			qs := a.QueryString()
-			var b protocol.Args
-			b.ParseBytes(append([]byte(nil), qs...))
-			var got []string
-			b.VisitAll(func(k, v []byte) { got = append(got, string(k)+"\x00"+string(v)) })
+			// in: alternating key, value fields.  Run on fresh objects and on recycled ones (slots that held value-less
+			// keys resp. other pairs before a Reset): the encoding and the round trip must not depend on it
 			var fs []Finding
-			if strings.Join(got, "\x01") != strings.Join(exp, "\x01") {
-				fs = append(fs, Finding{Kind: "oracle", Unit: "c17.args_roundtrip", Class: "args-roundtrip", Impl: strings.Join(got, "|"), Expect: strings.Join(exp, "|"), Note: "encoded=" + string(qs)})
+			var qs []byte
+			for pass := 0; pass < 2; pass++ {
+				var a, b protocol.Args
+				if pass == 1 {
+					a.ParseBytes([]byte("flag&other&x&y&z&w"))
+					a.Reset()
+					b.ParseBytes([]byte("p=1&q=2&r=3&s=4&t&u=6"))
+					b.Reset()
+				}
+				var exp []string
+				for i := 0; i+1 < len(in); i += 2 {
+					k, v := in.B(i), in.B(i+1)
+					a.Add(string(k), string(v))
+					if len(k) > 0 || len(v) > 0 {
+						exp = append(exp, string(k)+"\x00"+string(v))
+					}
+				}
+				enc := a.QueryString()
+				if pass == 0 {
+					qs = append([]byte(nil), enc...)
+				} else if string(enc) != string(qs) {
+					fs = append(fs, Finding{Kind: "oracle", Unit: "c17.args_roundtrip", Class: "encoding-differs-on-a-recycled-object", Impl: string(enc), Expect: string(qs)})
+				}
+				b.ParseBytes(append([]byte(nil), enc...))
+				var got []string
+				b.VisitAll(func(k, v []byte) { got = append(got, string(k)+"\x00"+string(v)) })
+				if strings.Join(got, "\x01") != strings.Join(exp, "\x01") {
+					fs = append(fs, Finding{Kind: "oracle", Unit: "c17.args_roundtrip", Class: "args-roundtrip", Impl: strings.Join(got, "|"), Expect: strings.Join(exp, "|"), Note: fmt.Sprintf("encoded=%s (pass %d)", enc, pass)})
+				}
 			}
 			// model encode of the same list
 			margs := make([][]byte, 0, len(in))
